@@ -355,18 +355,19 @@ struct Observed
 	has_file: bool,
 }
 
-fn kind_of(msgs: &[String]) -> String
+/// kind of a diagnostic from the STRUCTURE of the error value (errkind.rs: downcasts, no message text): the innermost error decides
+fn kind_of(e: &(dyn std::error::Error + 'static)) -> String
 {
-	let last = msgs.last().map(String::as_str).unwrap_or("");
-	let table: [(&str, &str); 11] = [("reserved name", "reserved"), ("duplicate global constant", "dupGlobal"), ("duplicate local constant", "dupLocal"),
-		("duplicate constant", "dupConst"), ("no such global constant", "nfGlobal"), ("no such local constant", "nfLocal"),
-		("declared global constant", "defGlobal"), ("declared local constant", "defLocal"), ("constant out of range", "range"),
-		("invalid argument #", "argType"), ("assembly of", "asmFailed")];
-	if last.starts_with("argument #") && last.ends_with("is out of range") {return "valueRange".to_owned();}
-	if last.starts_with("label out of range") {return "labelRange".to_owned();}
-	if last.starts_with("misaligned label") {return "labelAlign".to_owned();}
-	for (pre, k) in table {if last.starts_with(pre) {return k.to_owned();}}
-	format!("other[{}]", msgs.join(" <- ").replace(' ', "_"))
+	use crate::errkind::{diag_kind, inner_kind, innermost};
+	let top = diag_kind(e);
+	if top.starts_with("dir.argtype.") || top.starts_with("instr.argtype.") {return "argType".to_owned();}
+	let k = inner_kind(innermost(e));
+	let table: [(&str, &str); 14] = [("const.reserved", "reserved"), ("duplicate.global", "dupGlobal"), ("duplicate.local", "dupLocal"),
+		("constdir.duplicate", "dupConst"), ("nosuch.global", "nfGlobal"), ("nosuch.local", "nfLocal"),
+		("global.deferred.global", "defGlobal"), ("global.deferred.local", "defLocal"), ("data.range.", "range"),
+		("asm.valuerange.", "valueRange"), ("const.range.", "labelRange"), ("const.alignment.", "labelAlign"), ("include.failed", "asmFailed"), ("include.nosuchfile", "noFile")];
+	for (pre, name) in table {if k.starts_with(pre) {return name.to_owned();}}
+	format!("other[{top}]")
 }
 
 fn observe(p: &Project, dir: &PathBuf, fl: &Flat, names: &[String]) -> Observed
@@ -409,17 +410,10 @@ fn observe(p: &Project, dir: &PathBuf, fl: &Flat, names: &[String]) -> Observed
 		}
 		for err in ctx.get_errors()
 		{
-			let mut msgs = vec![format!("{}", &err.value)];
-			let mut src = std::error::Error::source(&err.value);
-			while let Some(s) = src
-			{
-				msgs.push(format!("{s}"));
-				src = s.source();
-			}
 			let name = err.name.as_str();
 			let file = name.rsplit('/').next().and_then(|f| f.strip_prefix('f')).and_then(|f| f.strip_suffix(".asm")).and_then(|f| f.parse::<u64>().ok());
 			let tag = match file {Some(f) => f * 1000 + err.line as u64, None => 999_999};
-			o.diags.push((tag, kind_of(&msgs)));
+			o.diags.push((tag, kind_of(&err.value)));
 		}
 		for n in names
 		{
@@ -1097,6 +1091,248 @@ fn run_batch(cx: &mut Cx, projects: &[Project], serial: &mut u64)
 	}
 }
 
+// ------------------------------------------------------------------------------------------------
+// the constant table through the public API (`insert_constant` / `replace_constant` / `defer_constant` /
+// `get_constant` and the `Lookup` accessors), driven INSIDE a real assembly by probe directives registered in the
+// directive list next to the crate's own, so that both realms exist. `replace_constant` is the one operation that may
+// change a value: nothing in the crate calls it; its contract (returns the previous state, later uses see the new value,
+// register names stay reserved, the other realm is untouched) is checked against a dictionary.
+
+thread_local! {static PROBE_LOG: std::cell::RefCell<Vec<String>> = std::cell::RefCell::new(Vec::new());}
+
+#[derive(Clone, Copy, Debug)]
+enum Probe {Replace(Realm), Insert(Realm), Defer(Realm), Get(Realm)}
+
+fn realm_code(r: Realm) -> &'static str {match r {Realm::Local => "l", Realm::Global => "g"}}
+
+fn lookup_text(l: Lookup) -> String
+{
+	// through the accessors (exists / value / is_deferred / unwrap) as well as the variant
+	let by_variant = match l {Lookup::NotFound => "none".to_owned(), Lookup::Deferred => "deferred".to_owned(), Lookup::Found(v) => format!("{v}")};
+	let by_access = if !l.exists() {"none".to_owned()} else if l.is_deferred() {"deferred".to_owned()} else {match l.value() {Some(v) if v == l.unwrap() => format!("{v}"), _ => "?".to_owned()}};
+	if by_variant == by_access && l.value().is_some() == matches!(l, Lookup::Found(..)) {by_variant} else {format!("accessors-disagree({by_variant}/{by_access})")}
+}
+
+impl trion::asm::directive::Directive for Probe
+{
+	fn get_name(&self) -> &str
+	{
+		match self
+		{
+			Probe::Replace(Realm::Local) => "xreplace", Probe::Replace(Realm::Global) => "xgreplace",
+			Probe::Insert(Realm::Local) => "xinsert", Probe::Insert(Realm::Global) => "xginsert",
+			Probe::Defer(Realm::Local) => "xdefer", Probe::Defer(Realm::Global) => "xgdefer",
+			Probe::Get(Realm::Local) => "xget", Probe::Get(Realm::Global) => "xgget",
+		}
+	}
+
+	fn apply(&self, ctx: &mut Context, args: trion::text::Positioned<Vec<trion::text::parse::Argument>>) -> Result<(), trion::asm::ErrorLevel>
+	{
+		use trion::text::parse::Argument;
+		use trion::text::token::Number;
+		let name = match args.value.first() {Some(Argument::Identifier(n)) => n.as_ref().to_owned(), _ => panic!("probe: name expected")};
+		let value = match args.value.get(1) {Some(Argument::Constant(Number::Integer(v))) => *v, Some(Argument::Negate(b)) => match b.as_ref() {Argument::Constant(Number::Integer(v)) => -*v, _ => 0}, _ => 0};
+		let out = match *self
+		{
+			Probe::Replace(r) => match ctx.replace_constant(&name, value, r) {Ok(prev) => format!("ok {}", lookup_text(prev)), Err(e) => format!("err {}", crate::errkind::inner_kind(&e))},
+			Probe::Insert(r) => match ctx.insert_constant(&name, value, r) {Ok(fresh) => format!("ok {fresh}"), Err(e) => format!("err {}", crate::errkind::inner_kind(&e))},
+			Probe::Defer(r) => match ctx.defer_constant(&name, r) {Ok(()) => "ok".to_owned(), Err(e) => format!("err {}", crate::errkind::inner_kind(&e))},
+			Probe::Get(r) => lookup_text(ctx.get_constant(&name, r)),
+		};
+		PROBE_LOG.with(|l| l.borrow_mut().push(out));
+		Ok(())
+	}
+}
+
+#[derive(Clone, Debug)]
+enum TOp {Replace(Realm, String, i64), Insert(Realm, String, i64), Defer(Realm, String), Get(Realm, String), Use(String)}
+
+impl TOp
+{
+	fn text(&self) -> String
+	{
+		let g = |r: &Realm| if *r == Realm::Global {"g"} else {""};
+		match self
+		{
+			TOp::Replace(r, n, v) => format!(".x{}replace {n}, {v};", g(r)),
+			TOp::Insert(r, n, v) => format!(".x{}insert {n}, {v};", g(r)),
+			TOp::Defer(r, n) => format!(".x{}defer {n};", g(r)),
+			TOp::Get(r, n) => format!(".x{}get {n};", g(r)),
+			TOp::Use(n) => format!(".du32 {n};"),
+		}
+	}
+
+	fn code(&self) -> String
+	{
+		match self
+		{
+			TOp::Replace(r, n, v) => format!("r{}:{n}:{v}", realm_code(*r)),
+			TOp::Insert(r, n, v) => format!("i{}:{n}:{v}", realm_code(*r)),
+			TOp::Defer(r, n) => format!("d{}:{n}", realm_code(*r)),
+			TOp::Get(r, n) => format!("g{}:{n}", realm_code(*r)),
+			TOp::Use(n) => format!("u:{n}"),
+		}
+	}
+
+	fn parse(s: &str) -> Option<TOp>
+	{
+		let w: Vec<&str> = s.split(':').collect();
+		let realm = |c: &str| match &c[1..] {"l" => Some(Realm::Local), "g" => Some(Realm::Global), _ => None};
+		Some(match (w.first()?.chars().next()?, w.len())
+		{
+			('r', 3) => TOp::Replace(realm(w[0])?, w[1].to_owned(), w[2].parse().ok()?),
+			('i', 3) => TOp::Insert(realm(w[0])?, w[1].to_owned(), w[2].parse().ok()?),
+			('d', 2) => TOp::Defer(realm(w[0])?, w[1].to_owned()),
+			('g', 2) => TOp::Get(realm(w[0])?, w[1].to_owned()),
+			('u', 2) => TOp::Use(w[1].to_owned()),
+			_ => return None,
+		})
+	}
+}
+
+/// dictionary semantics of the table operations; `uses` = (value the `.du32` must emit) in order
+fn table_reference(ops: &[TOp]) -> (Vec<String>, Vec<i64>)
+{
+	let mut tabs: [HashMap<String, Option<i64>>; 2] = [HashMap::new(), HashMap::new()];
+	let idx = |r: &Realm| if *r == Realm::Local {0} else {1};
+	let realm_name = |r: &Realm| if *r == Realm::Local {"local"} else {"global"};
+	let show = |e: Option<&Option<i64>>| match e {None => "none".to_owned(), Some(None) => "deferred".to_owned(), Some(Some(v)) => format!("{v}")};
+	let (mut log, mut uses) = (Vec::new(), Vec::new());
+	for op in ops
+	{
+		match op
+		{
+			TOp::Replace(r, n, v) =>
+			{
+				if is_reg(n) {log.push("err const.reserved".to_owned()); continue;}
+				let prev = show(tabs[idx(r)].get(n));
+				tabs[idx(r)].insert(n.clone(), Some(*v));
+				log.push(format!("ok {prev}"));
+			},
+			TOp::Insert(r, n, v) =>
+			{
+				if is_reg(n) {log.push("err const.reserved".to_owned()); continue;}
+				match tabs[idx(r)].get(n).copied()
+				{
+					None => {tabs[idx(r)].insert(n.clone(), Some(*v)); log.push("ok true".to_owned());},
+					Some(None) => {tabs[idx(r)].insert(n.clone(), Some(*v)); log.push("ok false".to_owned());},
+					Some(Some(_)) => log.push(format!("err duplicate.{}", realm_name(r))),
+				}
+			},
+			TOp::Defer(r, n) =>
+			{
+				if is_reg(n) {log.push("err const.reserved".to_owned()); continue;}
+				if tabs[idx(r)].contains_key(n) {log.push(format!("err duplicate.{}", realm_name(r)));}
+				else {tabs[idx(r)].insert(n.clone(), None); log.push("ok".to_owned());}
+			},
+			TOp::Get(r, n) => log.push(show(tabs[idx(r)].get(n))),
+			TOp::Use(n) => uses.push(tabs[0].get(n).copied().flatten().expect("generator: uses only valued local names")),
+		}
+	}
+	(log, uses)
+}
+
+fn check_table(cx: &mut Cx, ops: &[TOp])
+{
+	let input = format!("table {}", ops.iter().map(|o| o.code()).collect::<Vec<_>>().join(" "));
+	let (want_log, want_uses) = table_reference(ops);
+	let text = format!(".addr {BASE};\n{}\n", ops.iter().map(|o| o.text()).collect::<Vec<_>>().join("\n"));
+	let path = cx.work.join("table.asm");
+	PROBE_LOG.with(|l| l.borrow_mut().clear());
+	let res = guarded(||
+	{
+		let mut directives = DirectiveList::generate();
+		let mut clash = 0;
+		for r in [Realm::Local, Realm::Global]
+		{
+			for p in [Probe::Replace(r), Probe::Insert(r), Probe::Defer(r), Probe::Get(r)] {directives.register(Box::new(p)).expect("fresh name");}
+		}
+		// a second registration under a used name is refused and hands the previous directive back
+		if let Err(prev) = directives.register(Box::new(Probe::Get(Realm::Local))) {if prev.get_name() == "xget" {clash += 1;}}
+		let mut ctx = Context::new(&Arm6M, &directives);
+		let (r, _) = ctx.assemble(text.as_bytes(), path.clone());
+		let closed = ctx.close_segment().is_ok();
+		let fin = ctx.finalize();
+		let mut image = Vec::new();
+		for (range, seg) in ctx.output().iter() {if range.get_first() == BASE {image = seg.to_vec();}}
+		let errs: Vec<String> = ctx.get_errors().iter().map(|e| format!("{}:{}:{}", e.line, e.col, crate::errkind::diag_kind(&e.value))).collect();
+		(r.is_ok(), closed, fin, image, errs, clash)
+	});
+	let log = PROBE_LOG.with(|l| l.borrow().clone());
+	cx.report.case(Some(&log.join(",")));
+	match res
+	{
+		Err(p) => cx.report.oracle_fail(input, format!("panic: {p}")),
+		Ok((ok, closed, fin, image, errs, clash)) =>
+		{
+			let uses: Vec<i64> = image.chunks(4).map(|c| c.iter().enumerate().map(|(i, b)| (*b as i64) << (8 * i)).sum()).collect();
+			if clash != 1 {cx.report.oracle_fail(input.clone(), "registering a second directive under a used name was not refused with the previous one");}
+			if !(ok && closed && fin && errs.is_empty()) {cx.report.oracle_fail(input.clone(), format!("table operations made the assembly fail: {errs:?}"));}
+			if log != want_log {cx.report.oracle_fail(input.clone(), format!("table operations returned {log:?}, a dictionary gives {want_log:?}"));}
+			if uses != want_uses {cx.report.oracle_fail(input.clone(), format!("uses emitted {uses:?}, the values current at each use are {want_uses:?}"));}
+		},
+	}
+}
+
+fn table_api(cx: &mut Cx)
+{
+	let l = Realm::Local;
+	let g = Realm::Global;
+	let s = |x: &str| x.to_owned();
+	let fixed: Vec<Vec<TOp>> = vec![
+		vec![TOp::Insert(l, s("a"), 1), TOp::Use(s("a")), TOp::Replace(l, s("a"), 2), TOp::Use(s("a")), TOp::Get(l, s("a")), TOp::Get(g, s("a"))],
+		vec![TOp::Replace(l, s("a"), 5), TOp::Replace(l, s("a"), 6), TOp::Use(s("a")), TOp::Insert(l, s("a"), 7), TOp::Use(s("a"))],
+		vec![TOp::Defer(l, s("a")), TOp::Get(l, s("a")), TOp::Replace(l, s("a"), 9), TOp::Use(s("a")), TOp::Defer(l, s("a"))],
+		vec![TOp::Replace(g, s("a"), 3), TOp::Get(l, s("a")), TOp::Replace(g, s("a"), 4), TOp::Get(g, s("a")), TOp::Defer(g, s("b")), TOp::Replace(g, s("b"), -1), TOp::Get(g, s("b"))],
+		vec![TOp::Replace(l, s("R0"), 1), TOp::Replace(g, s("sp"), 1), TOp::Get(l, s("R0")), TOp::Get(g, s("sp")), TOp::Insert(l, s("Lr"), 1), TOp::Defer(g, s("control"))],
+		vec![TOp::Replace(l, s("a"), i64::MIN + 1), TOp::Get(l, s("a")), TOp::Replace(l, s("a"), i64::MAX), TOp::Get(l, s("a")), TOp::Replace(l, s("a"), 0), TOp::Use(s("a"))],
+	];
+	for ops in &fixed {check_table(cx, ops);}
+	cx.report.hit_n("constant-table API: fixed sequences", fixed.len() as u64);
+	let n = if cx.thorough() {4000} else {600};
+	for _ in 0..n
+	{
+		let mut rng = cx.rng.fork();
+		let mut ops = Vec::new();
+		let mut valued: Vec<String> = Vec::new();
+		for _ in 0..1 + rng.below(12)
+		{
+			let name = if rng.chance(1, 8) {rng.pick(&REG_NAMES).to_string()} else {rng.pick(&NAMES).to_string()};
+			let r = if rng.chance(2, 3) {l} else {g};
+			let v = *rng.pick(&[0i64, 1, 2, 0xFFFF_FFFF, 77]);
+			let op = match rng.below(10)
+			{
+				0..=3 => TOp::Replace(r, name, v),
+				4 | 5 => TOp::Insert(r, name, v),
+				6 => TOp::Defer(r, name),
+				7 => TOp::Get(r, name),
+				_ => if valued.is_empty() {TOp::Get(r, name)} else {TOp::Use(rng.pick(&valued).clone())},
+			};
+			ops.push(op);
+			// which local names hold a value now
+			let (_, _) = (0, 0);
+			valued = {
+				let mut t: HashMap<String, Option<i64>> = HashMap::new();
+				for o in &ops
+				{
+					match o
+					{
+						TOp::Replace(Realm::Local, n, v) if !is_reg(n) => {t.insert(n.clone(), Some(*v));},
+						TOp::Insert(Realm::Local, n, v) if !is_reg(n) => {if t.get(n).copied().flatten().is_none() {t.insert(n.clone(), Some(*v));}},
+						TOp::Defer(Realm::Local, n) if !is_reg(n) => {t.entry(n.clone()).or_insert(None);},
+						_ => (),
+					}
+				}
+				let mut v: Vec<String> = t.into_iter().filter(|(_, v)| v.is_some()).map(|(n, _)| n).collect();
+				v.sort();
+				v
+			};
+		}
+		check_table(cx, &ops);
+	}
+	cx.report.hit_n("constant-table API: random sequences", n as u64);
+}
+
 pub fn run(_id: &str, cx: &mut Cx)
 {
 	cx.report.rule = "projects = include trees (depth <= 4, fan-out <= 3, <= 9 files) of .const/label/.global/.import/.export/.include statements and uses, a use being .du32 <name> or an instruction whose operand goes through one of the evaluator arms (SVC, UDF.N, UDF.W, RSBS / MOVS, CMP / B, BKPT / LDRB / LDR literal, LDR reg+offset) with every name confined to a value class encodable in its spellings, written to disk and assembled by the real Context; \
@@ -1105,6 +1341,15 @@ non-trivial = at least one used value or one diagnostic observed; distinct = dis
 	let mut serial = 0u64;
 	if let Some(input) = cx.replay.clone()
 	{
+		if let Some(rest) = input.strip_prefix("table ")
+		{
+			match rest.split(' ').filter(|w| !w.is_empty()).map(TOp::parse).collect::<Option<Vec<TOp>>>()
+			{
+				Some(ops) => check_table(cx, &ops),
+				None => cx.report.oracle_fail(input, "unrecognised replay input"),
+			}
+			return;
+		}
 		match Project::decode(&input)
 		{
 			Some(p) if p.is_tree() => run_batch(cx, &[p], &mut serial),
@@ -1112,6 +1357,7 @@ non-trivial = at least one used value or one diagnostic observed; distinct = dis
 		}
 		return;
 	}
+	table_api(cx);
 	let sc = scenarios();
 	cx.report.hit_n("scenario projects", sc.len() as u64);
 	for p in &sc {assert!(p.is_tree(), "scenario is not a tree: {}", p.encode());}
